@@ -13,6 +13,7 @@ pub mod c09;
 pub mod c10;
 pub mod c11;
 pub mod c12;
+pub mod c12d;
 pub mod c13;
 pub mod c14;
 pub mod c15;
@@ -50,6 +51,9 @@ pub fn spec(id: &str) -> Option<PropSpec> {
 }
 
 /// Child-process entry points (`srv <ID> child ...`).
-pub fn child(_id: &str, _args: &[String]) -> i32 {
-    2
+pub fn child(id: &str, args: &[String]) -> i32 {
+    match id {
+        "C12" => c12d::child(args),
+        _ => 2,
+    }
 }
